@@ -59,4 +59,18 @@ var checks = map[string]*checkDef{
 			"a panic 'failed to initialize random scalar generator' is accepted only while an entropy-reader error is being injected",
 		},
 	},
+	"C02": {
+		property: "C02", level: "exploration",
+		plan: []planItem{
+			{workload: "C02", variant: "plain", quick: 16000, thorough: 600000},
+			{workload: "C02F", variant: "plain", quick: 160, thorough: 3200},
+			{workload: "C02", variant: "noavx2", thorough: 40000, thoroughOnly: true},
+			{workload: "C02", variant: "purego", thorough: 40000, thoroughOnly: true},
+			{workload: "C02", variant: "force32bit", thorough: 20000, thoroughOnly: true},
+		},
+		assume: []string{
+			"scope: exactness is decided on the seeds, messages and contexts the workload generates, against Go's crypto/ed25519 (go1.23) as an independent RFC 8032 implementation; the universal claim for seeds whose clamped scalar or nonce lands on special residues is not reachable by a schedule, stream or fault and is not decided",
+			"an altered tuple that still verified would need a second valid encoding of a random R or a forgery; any acceptance after alteration is treated as a violation",
+		},
+	},
 }
